@@ -217,6 +217,9 @@ func bigOutCoq(o plyx.Outcome) string {
 func bigCase(b BigDesc) hx.Case {
 	c := hx.Case{Kind: "big", Desc: b, Nontriv: b.N >= 1 && b.Mask != 0, Key: fmt.Sprintf("big|%+v", b)}
 	d := bigToDesc(b)
+	if n := duplicateName(d); n != "" {
+		c.GoFail, c.FailKey = "harness: big description writes "+n+" twice", "harness:generator"
+	}
 	m := buildMesh(d)
 	var ws, outs [3]string
 	var files [3][]byte
